@@ -11,7 +11,7 @@ def _shuffled(items, seed):
 
 
 def ellipsis_pairs(tier, seed):
-    wants = list(token_strings(['a', 'b', '...', ' ', 'ab', '\n'], 4 if tier == 'quick' else 5))
+    wants = list(token_strings(['a', 'b', '...', ' ', 'ab', '\n'], 5))
     gots = list(strings('ab ', 4)) + ['a\nb', 'ab\nab', 'aab', 'abab', 'ba ab']
     pairs = _shuffled(itertools.product(gots, wants), seed)
     for g, w in pairs:
@@ -22,3 +22,67 @@ def exc_messages(tier, seed):
     toks = ['a', 'B', '.', ':', '\n', ' ', 'x.y', 'E: m']
     for s in _shuffled(token_strings(toks, 4 if tier == 'quick' else 5), seed):
         yield {'msg': s}
+
+
+class BadRepr(object):
+    def __repr__(self):
+        raise RuntimeError('bad repr')
+
+
+class Rep(object):
+    def __init__(self, text):
+        self.text = text
+
+    def __repr__(self):
+        return self.text
+
+    def __str__(self):
+        return 'str-' + self.text
+
+
+def _runstates():
+    from xdoctest import directive
+    out = []
+    for ied in (False, True):
+        for ell in (True, False):
+            rs = directive.RuntimeState()
+            rs['IGNORE_EXCEPTION_DETAIL'] = ied
+            rs['ELLIPSIS'] = ell
+            out.append(rs)
+    return out
+
+
+def _evals():
+    from xdoctest import constants
+    return [constants.NOT_EVALED, Rep('a'), Rep('b'), Rep(''), Rep("'a'"), 1, None, BadRepr()]
+
+
+def gvw_inputs(tier, seed):
+    outs = ['', 'a', 'b', 'a\n', 'b\n', ' ', '\n', 'a\nb\n', '1', "'a'"]
+    wants = ['a', 'b', 'a\nb', '...', 'a...', '<BLANKLINE>', '1', "'a'", 'None', 'str-a']
+    rss = _runstates()
+    combos = _shuffled(itertools.product(wants, outs, range(len(_evals())), range(len(rss))), seed)
+    for w, o, e, r in combos:
+        yield {'want': w, 'got_stdout': o, 'got_eval': _evals()[e], 'runstate': rss[r]}
+
+
+def part_check_inputs(tier, seed):
+    from xdoctest import doctest_part
+    outs = ['', 'a\n', 'b\n', 'x']
+    wants = [['a'], ['b'], ['a', 'b'], ['x'], ['b', 'x'], ['...'], ['1'], ['a', 'b', 'x']]
+    unm = [[], ['a\n'], ['a\n', 'b\n'], ['b\n', 'a\n'], ['', 'a\n'], ['x', 'a\n', 'b\n']]
+    rss = _runstates()[:2]
+    combos = _shuffled(itertools.product(range(len(wants)), outs, range(len(_evals())), range(len(unm)), range(len(rss))), seed)
+    for w, o, e, u, r in combos:
+        part = doctest_part.DoctestPart(['x'], want_lines=list(wants[w]), line_offset=0, orig_lines=['>>> x'] + wants[w])
+        yield {'part': part, 'got_stdout': o, 'got_eval': _evals()[e], 'runstate': rss[r], 'unmatched': list(unm[u])}
+
+
+def check_exception_inputs(tier, seed):
+    hdr = 'Traceback (most recent call last):'
+    gots = ['ValueError: x', 'ValueError: y', 'a.b.ValueError: x', 'KeyError', 'ValueError', 'E: 3.5', 'mod.E: 3.5']
+    wants = [hdr + '\n' + g for g in gots] + [hdr + '\n  File "x"\n' + gots[0], hdr + '\n...\nValueError: ...',
+             'ValueError: x', 'something else', hdr, hdr + '\n  indented only', '    ' + hdr + '\n    KeyError']
+    rss = _runstates()
+    for g, w, r in _shuffled(itertools.product(gots, wants, range(len(rss))), seed):
+        yield {'exc_got': g, 'want': w, 'runstate': rss[r]}
